@@ -13,4 +13,8 @@ TEXTS = {
             "level": "exploration: " + _EXPL, "note": "input_value compared modulo list/tuple materialisation; one-shot iterators against unions are skipped (undocumented)"},
     "C07": {"technique": "runtime monitoring: pairwise strict/lax differential + documented strict-origins table",
             "level": "exploration: " + _EXPL, "note": "value differences are tolerated only where the reference says lax rules make union/literal cases overlap"},
+    "C03": {"technique": "runtime monitoring: every generated (model, name_mapping recipe) program is run on derived inputs and compared online with a reference layout model",
+            "level": "exploration: " + _EXPL, "note": "trusts vlib/layout.py (DESIGN.md appendix B); predicates inside recipes are restricted to field ids, regexes and exact classes"},
+    "C05": {"technique": "runtime monitoring: fault planter with known positions vs. recorded struct trails (multiset equality in ALL mode, membership in FIRST, absence in DISABLE)",
+            "level": "fault_enumeration-style exploration: " + _EXPL, "note": "independent faults by construction; one error per dict node for missing / unknown keys; unions are leaves"},
 }
